@@ -580,7 +580,9 @@ def gen_c19_large(seed, index):
     npc = G.gen_np(rng, npk, len(arms), d)
     if npc["k"] in ("radius", "lsh"):
         npc["probs"] = None
-    n = rng.choice([129, 200, 256, 257, 300, 130, 1025, 1777, 2500])
+    ns = [129, 200, 256, 257, 300, 130, 1025, 1777, 2500]
+    n = ns[(index + index // 6) % len(ns)]           # every policy meets every length over the indices
+    rng.random()
     rew = (lambda: rng.choice([0, 1])) if lpk == "thompson" else (lambda: rng.choice([0, 1, 2, 3, 5]))
     rows = [[float(rng.randint(0, 6)), float(rng.randint(0, 6))] for _ in range(n)]
     if index % 4 == 1 and lpk != "thompson":
@@ -1962,6 +1964,12 @@ def gen_sim(seed, index):
         off = 2.0 ** 27
         contexts = [[off + v for v in row] for row in contexts]
         offset_used = True
+        # at least one bandit that measures euclidean distances between those rows
+        if not (bandits[0].get("np") and bandits[0]["np"]["k"] in ("radius", "knn")) and bandits[0]["lp"]["k"] != "thompson":
+            bandits[0]["np"] = rs.choice([{"k": "knn", "kk": 2, "metric": "euclidean"},
+                                          {"k": "radius", "r": 1.5, "metric": "euclidean", "probs": None}])
+            if bandits[0]["lp"]["k"] in ("popularity", "random"):
+                bandits[0]["lp"] = {"k": "ucb", "alpha": 1.0}
         for bc in bandits:
             if bc.get("np") and bc["np"]["k"] in ("radius", "knn"):
                 bc["np"]["metric"] = "euclidean"
